@@ -246,7 +246,7 @@ def run(tier, replay=None):
     out.assumptions += [
         "arbitrary Unicode text is explored over a structured, bounded input model (alphabet strings, mutations, generated programs), not by coverage-guided fuzzing",
         "watchdog 10 s per input of < 2 kB, 60 s for the long-run inputs (30-200 kB of one or two repeated symbols); a timeout, panic or crash is a violation",
-        "growth is judged on deterministic hook counters (sweeps per pass <= 4N+3, the limit PassLoop.tla establishes), never on wall-clock ratios",
+        "growth is judged on deterministic hook counters (sweeps per pass <= 4N+3; PassLoop.tla establishes 2N+1 for its one-fact model), never on wall-clock ratios",
         "debug profile (overflow checks on) for the library entry point; the release binary is exercised in the thorough tier",
     ]
     return out.finish(level="exploration", extra_cov={
